@@ -160,6 +160,8 @@ type memConn struct {
 	slowRead       bool           // the client does not read: a server Write delivers half and blocks until resumed
 	writeBlocked   bool           // a server Write is in progress (blocked on the client)
 	resumes        int            // blocked writes the client has allowed to complete
+	errsExpected   int            // errors handed to the server that it reports through onErrorFunc
+	errsSeen       int            // OnErrorFunc calls attributed to this connection
 }
 
 func (c *memConn) Read(p []byte) (int, error) {
@@ -176,6 +178,7 @@ func (c *memConn) Read(p []byte) (int, error) {
 	for {
 		if c.srvClosed {
 			w.logLocked(lcEvent{code: evRead, c: c.id, a: 3})
+			c.errsExpected++
 			w.mu.Unlock()
 			return 0, memErr{c.id, "read on closed connection"}
 		}
@@ -221,10 +224,12 @@ func (c *memConn) Write(p []byte) (int, error) {
 	defer w.mu.Unlock()
 	if c.srvClosed {
 		w.logLocked(lcEvent{code: evWrite, c: c.id, a: 0})
+		c.errsExpected++
 		return 0, memErr{c.id, "write on closed connection"}
 	}
 	if c.failWrites {
 		w.logLocked(lcEvent{code: evWrite, c: c.id, a: 0})
+		c.errsExpected++
 		return 0, memErr{c.id, "connection reset by peer"}
 	}
 	if c.slowRead {
@@ -239,6 +244,7 @@ func (c *memConn) Write(p []byte) (int, error) {
 		c.writeBlocked = false
 		if c.resumes == 0 {
 			w.logLocked(lcEvent{code: evWrite, c: c.id, a: 0})
+			c.errsExpected++
 			return half, memErr{c.id, "write on closed connection"}
 		}
 		c.resumes--
@@ -256,11 +262,15 @@ func (c *memConn) Close() error {
 	w.mu.Lock()
 	defer w.mu.Unlock()
 	c.closeCalls++
-	if curGID() != w.sdGID {
+	own := curGID() != w.sdGID
+	if own {
 		c.ownCloses++
 	}
 	w.logLocked(lcEvent{code: evConnClose, c: c.id})
 	if c.srvClosed {
+		if own {
+			c.errsExpected++ // Shutdown ignores the error of its Close, everybody else reports it
+		}
 		return memErr{c.id, "close of closed connection"} // as net.Conn does
 	}
 	c.srvClosed = true
